@@ -171,7 +171,12 @@ class RvErrors(Slice):
         return findings, cl
 
     def text_model_outcome(self, model, text):
-        return NotImplemented
+        import lex_corr as L
+        lines = text.splitlines()
+        if not all(L.in_domain(l) for l in lines):
+            return NotImplemented
+        r = model.call([93, [], [], [[ord(c) for c in l] for l in lines]])
+        return r[0][0] if r[0] else None
 
     def tokens(self, text):
         return RA.tokens_of(text)
